@@ -294,6 +294,11 @@ def run(ctx):
     rep.extra["param_half_templates"] = nt
     rep.extra["or_shifted_high_half_sites_in_library"] = nr
 
+    # ---- D5: lazy initialisation hands the wrapper its code object only once it is published ---------
+    # (every generated wrapper without an init function obtains its OrcCode through orc_once_enter; same rule as C08 D3)
+    from rules.c08 import once_enter_value_guarded
+    once_enter_value_guarded(db, rep, "D5-LAZY-INIT-VALUE")
+
     if ctx.tier == "thorough":
         d4(ctx, rep)
 
